@@ -224,6 +224,10 @@ pub struct World {
     pub stall_pct: u64,
     /// probe phase: the environment is cooperative (no faults, pay succeeds)
     pub cooperative: bool,
+    /// age (seconds) fabricated into stored Pending records at the last restart (R11d)
+    pub aged: Option<u64>,
+    pub part_weight: u64,
+    pub target: Option<String>,
     pub rng: crate::prng::Rng,
     pub rec_cache: Vec<Option<(u64, Rec)>>,
     pub notified: Vec<(String, String)>,
@@ -407,5 +411,36 @@ pub fn short(v: &Value) -> String {
         format!("{}…({}B)", &s[..300.min(s.len())].chars().take(280).collect::<String>(), s.len())
     } else {
         s
+    }
+}
+
+impl World {
+    /// Fabricate an older stored history: rewrite `attempt_time_seconds` inside every stored
+    /// record that has one to (now - age). This is the only place where the harness depends on
+    /// the plugin's storage format; if the field is not found nothing is changed and the aged
+    /// runs count as inconclusive for R11d.
+    pub fn age_pending_records(&mut self, age: u64) -> bool {
+        let now = std::time::SystemTime::now().duration_since(std::time::UNIX_EPOCH).map(|d| d.as_secs()).unwrap_or(0);
+        let key = "\"attempt_time_seconds\":";
+        let mut changed = false;
+        for (_, e) in self.node.ds.iter_mut() {
+            let s = match std::str::from_utf8(&e.data) {
+                Ok(s) => s.to_string(),
+                Err(_) => continue,
+            };
+            if let Some(p) = s.find(key) {
+                let after = &s[p + key.len()..];
+                let end = after.find(|c: char| !c.is_ascii_digit()).unwrap_or(after.len());
+                if end > 0 {
+                    let new = format!("{}{}{}{}", &s[..p], key, now.saturating_sub(age), &after[end..]);
+                    e.data = new.into_bytes();
+                    changed = true;
+                }
+            }
+        }
+        if changed {
+            self.node.ds_mutations += 1;
+        }
+        changed
     }
 }
